@@ -26,7 +26,7 @@ func init() {
 		ID:     "C13",
 		Word32: true,
 		Level:  "exploration",
-		Rule: "E1 bounded-exhaustive enumeration: every bitmap of 1..N words over {0, 1, 1<<63, 1|1<<63, 1<<31, ^0, 3<<62} × every range 0 ≤ i ≤ end ≤ 64·len with i inside the bitmap: NextOne; and PrevOne for end ≥ 1. plus long sparse bitmaps (24/33 words, thorough 40/70; all zero except ≤2 islands at every pair of positions) × every range whose ends lie within 1 of a word boundary or half-word; and nearly empty bitmaps within 9 words of every power of two from 2^10 to 2^14 words with ranges spanning almost everything; oracle: linear scan over [i,end). " +
+		Rule: "POPULATION CLASSES: the same ~9000 single words as C01/C12 alone with every (i, end) and between two empty words with every i in the word × every end from the word on; then E1 bounded-exhaustive enumeration: every bitmap of 1..N words over {0, 1, 1<<63, 1|1<<63, 1<<31, ^0, 3<<62} × every range 0 ≤ i ≤ end ≤ 64·len with i inside the bitmap: NextOne; and PrevOne for end ≥ 1. plus long sparse bitmaps (24/33 words, thorough 40/70; all zero except ≤2 islands at every pair of positions) × every range whose ends lie within 1 of a word boundary or half-word; and nearly empty bitmaps within 9 words of every power of two from 2^10 to 2^14 words with ranges spanning almost everything; oracle: linear scan over [i,end). " +
 			"Plus a length sweep: EVERY bitmap length 1..1100 words × 2 sparse patterns × ranges with both ends in {0, 1, 63, 64, middle, last word ± 1, end}. Plus, on 64-bit builds, a sparse bitmap of 2^25 words (2^31 bits) × every range with both ends in {0, 1, 63, 64, 2^30.., MaxInt32-130.., MaxInt32} (17 values), against a scan that steps over empty words. " +
 			"A case is one call; non-trivial when the bitmap has a 1 and the range is non-empty.",
 		Assumptions: []string{"other word patterns are not enumerated (the code's case splits are: first/last word masked, all-zero words skipped, result clipped to the range)"},
@@ -81,6 +81,54 @@ func c13Run(c *mc.Ctx) {
 	}
 	for _, L := range []int{c.Pick(24, 40), c.Pick(33, 70)} {
 		c13Long(c, L)
+	}
+	// POPULATION CLASSES of one word (c12PopWords): alone with EVERY (i, end), and between two empty words
+	// with every i in the word (and 0, 63) × every end from the word on (and 129, 192)
+	{
+		pw := c12PopWords()
+		c.Par(len(pw), func(i int) {
+			var ev int64
+			one := func(w []uint64, is, ends []int32, v int) {
+				for _, a := range is {
+					for _, e := range ends {
+						if e < a {
+							continue
+						}
+						if a < int32(64*len(w)) {
+							if g, p := nextOne(w, a, e); p || g != c13RefNext(w, a, e) {
+								c.Fail(9<<50|int64(i)<<20|int64(v)<<18|int64(a)<<9|int64(e), "NextOne", "NextOne/population-classes", c13Case{Words: append(gen.Words(nil), w...), I: a, End: e}, "", "")
+							}
+							ev++
+						}
+						if e > 0 {
+							if g, p := prevOne(w, a, e); p || g != c13RefPrev(w, a, e) {
+								c.Fail(9<<50|int64(i)<<20|int64(v)<<18|int64(a)<<9|int64(e), "PrevOne", "PrevOne/population-classes", c13Case{Words: append(gen.Words(nil), w...), I: a, End: e}, "", "")
+							}
+							ev++
+						}
+					}
+				}
+			}
+			var all, mid, midE []int32
+			for k := int32(0); k <= 64; k++ {
+				all = append(all, k)
+			}
+			mid = append(mid, 0, 63)
+			for k := int32(64); k < 128; k++ {
+				mid = append(mid, k)
+			}
+			for k := int32(64); k <= 129; k++ {
+				midE = append(midE, k)
+			}
+			midE = append(midE, 192)
+			one([]uint64{pw[i]}, all[:64], all, 0)
+			one([]uint64{0, pw[i], 0}, mid, midE, 1)
+			if i == 0 {
+				c.Expect(ev * int64(len(pw))) // the number of (i, end) pairs does not depend on the word
+			}
+			c.Count(ev, ev)
+			c.Add("population_class_bitmaps", 2)
+		})
 	}
 	c13Sweep(c)
 	c13Big(c)
